@@ -47,11 +47,11 @@ func NewFilter(config FilterConfig, checker Checker) Filter {
 // assumed as initially healthy. If addrs only contains a single entry, it is
 // always considered healthy.
 func (f *filter) Run(addrs stringset.Set) stringset.Set {
+	f.state.sync(addrs)
+
 	if len(addrs) == 1 {
 		return addrs.Copy()
 	}
-
-	f.state.sync(addrs)
 
 	ctx, cancel := context.WithTimeout(context.Background(), f.config.Timeout)
 	defer cancel()
